@@ -39,4 +39,11 @@ let () =
   (* a handle whose Open had to wait sees the state of the last Sync from every page
      (Lock.run_serializable: it loads the disk only once it owns the lock); the holder's writes
      are not tracked by the model's file state: the observation is a self-comparison *)
-  register "waitopen" (fun _ -> obs "waitopen differing=0")
+  register "waitopen" (fun _ -> obs "waitopen differing=0");
+  (* the lock lives exactly as long as the handle: after Close a new Open succeeds at once, whatever
+     child processes were started while the handle was open *)
+  register "childhold" (fun tk -> match tk with
+    | [_; name] -> (match get_file name with
+        | Some h -> (match reopen h with Some _ -> obs "childhold reopen=ok" | None -> obs "childhold openerr")
+        | None -> obs "childhold openerr")
+    | _ -> failwith "childhold")
